@@ -153,6 +153,35 @@ func checkC14(ctx *Ctx, c *Case) error {
 		}
 		ctx.Label("direct method call with DiscardUnknown")
 	}
+	// DiscardUnknown together with a recursion limit that is just sufficient: the
+	// request must reach the deepest level the limit still admits. Oracle: dynamicpb
+	// under the same options; limits it rejects are C06's business, not asserted here
+	for limit := 1; limit <= 6; limit++ {
+		o := proto.UnmarshalOptions{DiscardUnknown: true, AllowPartial: true, RecursionLimit: limit}
+		dl := t.NewD()
+		if o.Unmarshal(b, dl) != nil {
+			continue
+		}
+		wantL := canonD(dl.ProtoReflect())
+		pl := t.New()
+		if err := o.Unmarshal(b, pl); err != nil {
+			return fmt.Errorf("Unmarshal with DiscardUnknown and RecursionLimit=%d rejected a stream the reference accepts under the same options: %v", limit, err)
+		}
+		if got := canonI(pl); got != wantL {
+			return fmt.Errorf("DiscardUnknown with RecursionLimit=%d differs from the reference under the same options: %s", limit, diffStr(got, wantL))
+		}
+		if meth := t.New().ProtoReflect().ProtoMethods(); meth != nil && meth.Unmarshal != nil && meth.Flags&protoiface.SupportUnmarshalDiscardUnknown != 0 {
+			pm := t.New()
+			if _, err := meth.Unmarshal(protoiface.UnmarshalInput{Message: pm.ProtoReflect(), Buf: b, Flags: protoiface.UnmarshalDiscardUnknown, Depth: limit}); err != nil {
+				return fmt.Errorf("ProtoMethods.Unmarshal (DiscardUnknown flag, Depth=%d) rejected a stream the reference accepts at that limit: %v", limit, err)
+			}
+			if got := canonI(pm); got != wantL {
+				return fmt.Errorf("ProtoMethods.Unmarshal called directly with the DiscardUnknown flag and Depth=%d differs from the reference at that limit: %s", limit, diffStr(got, wantL))
+			}
+		}
+		ctx.Label("DiscardUnknown with a small recursion limit the reference accepts")
+		break // the smallest sufficient limit is the interesting one
+	}
 	// options combined on one call: the stream is decoded a second time INTO the
 	// message that already holds it (unknown fields included), with Merge +
 	// DiscardUnknown (+ a recursion limit that is sufficient): what the message
